@@ -33,15 +33,16 @@ CLAIMED = {
    text="Both LIMIT early-exit conditions (directory loop, archive-member loop) are proved to be exactly "
         "!buffered && limit > 0 && found >= limit for all inputs: never taken for ordered/aggregated output or limit 0.",
    note="Trusted: found accounting, TopN (BTreeMap: out of reach), is_buffered definition."),
- "C07": dict(engine="F", ref="5/C07",
-   technique="Kani harness on the AVG division extracted from get_mean (bounded operand domain)",
-   text="The division in get_mean is proved to be the real quotient sum/count (bounded domain sum < 256, count <= 16: symbolic f64 "
-        "division does not terminate beyond it); labelled bounded in the evidence.",
-   note="Bounded stand-in, not an unbounded proof. Not covered: MIN/MAX/COUNT/variance arms."),
+ "C07": dict(engine="V+F", ref="5/C07",
+   technique="Verus contract + loop invariant on the real get_buffer_sum (unbounded rows); Kani harness on the AVG division extracted from get_mean (bounded operand domain)",
+   text="SUM: the real get_buffer_sum, extracted verbatim, is proved to return the mathematical sum over any number of buffered rows of the "
+        "number the key column denotes (0 when absent or unparsable), without overflow when the sum fits usize. AVG: the division in "
+        "get_mean is the real quotient sum/count (bounded domain sum < 256, count <= 16; labelled bounded).",
+   note="Assumed: String keys obey vstd's hash-table key model; str::parse::<usize> is total. Not covered: MIN/MAX/COUNT/variance arms, buffering."),
  "C10": dict(engine="V+F", ref="5/C10",
-   technique="Verus contracts on 17 real parser methods (panic freedom, cursor frame, Ok => Some), modular and unbounded; Kani harness on the exit-status mapping",
-   text="17 real methods of impl Parser, extracted verbatim on every run, are proved free of unwrap-on-None/Err, out-of-range indexing and usize underflow for every token vector, each against its callees' contracts (cursor never moves backwards, token vector unchanged, Ok implies Some). error_count -> exit status is proved to be 0 iff no error else 1 for all i32, and the parse-error arm to return 2.",
-   note="Not covered: termination (exec_allows_no_decreases_clause), parse_fields/parse_roots/parse_root_options/the lexer, evaluator-side literal errors. Assumption A1: cursor < usize::MAX."),
+   technique="Verus contracts on 19 real parser methods: panic freedom, cursor frame, Ok => Some, and TERMINATION (decreases clauses), modular and unbounded; Kani harnesses on the exit-status mapping and the ORDER BY arms",
+   text="19 real methods of impl Parser (incl. parse_fields and parse_root_options), extracted verbatim on every run, are proved free of unwrap-on-None/Err, out-of-range indexing and usize underflow AND terminating (measure: tokens left, then recursion level; every loop iteration consumes a token) for every token vector, each against its callees' contracts (cursor never moves backwards, token vector unchanged, Ok implies Some and progress). error_count -> exit status is proved to be 0 iff no error else 1 for all i32, and the parse-error arm to return 2.",
+   note="Not covered: parse_roots, Parser::parse, the lexer, evaluator-side literal errors (regex, dates), termination of the search. Assumption A1: cursor < usize::MAX."),
  "C13": dict(engine="F", ref="5/C13",
    technique="Kani full-domain harnesses on the DateTime arm of conforms extracted each run",
    text="For all i64 entry times and all intervals a <= b the date arm is proved to implement = / != / < / > / <= / >= exactly as the "
